@@ -515,7 +515,13 @@ where
                                 })))
                             });
 
-                        if attr_name == "ref" {
+                        let is_transform_on = self.options.transform_on
+                            && (attr_name == "on" || attr_name == "nativeOn");
+
+                        if is_transform_on {
+                            // merged through `mergeProps(_transformOn(...))`: its keys aren't known
+                            has_dynamic_keys = true;
+                        } else if attr_name == "ref" {
                             has_ref = true;
                         } else if !jsx_attr
                             .value
@@ -542,9 +548,7 @@ where
                             }
                         }
 
-                        if self.options.transform_on
-                            && (attr_name == "on" || attr_name == "nativeOn")
-                        {
+                        if is_transform_on {
                             // keep source order: attributes written before `on` are merged first
                             if !props.is_empty() {
                                 merge_args.push(Expr::Object(ObjectLit {
